@@ -103,6 +103,7 @@ type run struct {
 	pending       map[string]time.Duration // thread:name -> begin of an unfinished lookup
 	pendingAtEnd  map[string]time.Duration
 	endAt         time.Duration
+	logAtEnd      int
 	teardown      bool
 }
 
@@ -324,6 +325,7 @@ func (sc *scen) harness(props map[string]bool, out *[]violation) func() *sched.H
 					r.pendingAtEnd[k] = v
 				}
 				r.endAt = r.svc.now()
+				r.logAtEnd = r.svc.NReq()
 				r.mu.Unlock()
 				for _, c := range r.cancels {
 					c()
@@ -473,6 +475,9 @@ func (r *run) act(tn string, ctx context.Context, a string) {
 		r.mu.Lock()
 		r.looks = append(r.looks, rec)
 		r.mu.Unlock()
+	case "sleep":
+		d, _ := time.ParseDuration(name)
+		time.Sleep(d)
 	case "close":
 		r.st.Close()
 		r.mu.Lock()
@@ -619,6 +624,27 @@ func (r *run) judge() {
 			if cnt[n] > c {
 				r.fail("C16", "lookup-retried", "%d LookupSecret(%q) calls caused %d requests (no automatic retry is allowed)", c, n, cnt[n])
 			}
+		}
+	}
+	// cadence of the background poller (real time.Ticker under the virtual clock)
+	if iv := r.sc.Interval; iv > 0 {
+		var at []time.Duration
+		for _, q := range r.svc.Log[:min(r.logAtEnd, len(r.svc.Log))] {
+			if q.Cond && (len(at) == 0 || q.At != at[len(at)-1]) {
+				at = append(at, q.At)
+			}
+		}
+		lo, hi := iv-iv/10, iv+iv/10
+		prev := time.Duration(0)
+		for i, a := range at {
+			if gap := a - prev; gap < lo || gap > hi {
+				r.fail("C11", "poll-cadence", "background poll %d came %v after the previous one (interval %v, allowed %v..%v); poll times %v", i, gap, iv, lo, hi, at)
+				break
+			}
+			prev = a
+		}
+		if want := int(r.endAt / hi); len(at) < want {
+			r.fail("C11", "poll-cadence-missing", "only %d background polls in %v with interval %v (at least %d expected); poll times %v", len(at), r.endAt, iv, want, at)
 		}
 	}
 	// polls: at most one request per name in flight
